@@ -17,6 +17,13 @@ Read with `ast` only (the repository is never imported).  Four tables:
                      `del X.f[..]`, `X.f |= ..`, `X.f = ..`, `self[..] = ..` / `self[..].add(..)` inside `Link`,
                      `setattr(inst, ..)`, `next(<..>.id_generator)`
 
+The statement objects themselves are tracked: in every `populate_*` phase the loop variable of
+`for <v> in self.statements:` (its class is read off the `isinstance` test) may only be used as `<v>.<field>` with a
+KNOWN field of that statement class, tested with isinstance(), or passed whole to a function of the project (also
+through a local name bound to `self.<method>`), where its parameter is tracked in the same way; renaming it,
+storing it, returning it, writing one of its fields or mutating one of its lists raises.  Every list-valued field of
+STATEMENT_FIELDS must have at least one recognised use — a field that is never seen is a broken tie, not "not shared".
+
 Any use the analysis does not recognise raises (= broken tie), never guesses.
 """
 import ast
@@ -35,10 +42,12 @@ RECEIVER_TYPES = {'metaclass': 'MetaClass', 'source_class': 'MetaClass', 'target
 STATEMENT_FIELDS = [('CreateClassStmt', 'attributes'), ('CreateAssociationStmt', 'source_keys'),
                     ('CreateAssociationStmt', 'target_keys'), ('CreateUniqueStmt', 'attributes'),
                     ('CreateInstanceStmt', 'values'), ('CreateInstanceStmt', 'names')]
-POPULATE_OF = {'CreateClassStmt': ['populate_classes'], 'CreateAssociationStmt': ['populate_associations'],
-               'CreateUniqueStmt': ['populate_unique_identifiers'],
-               'CreateInstanceStmt': ['populate_instances', '_populate_instance_with_positional_arguments',
-                                      '_populate_instance_with_named_arguments']}
+# every field of the statement classes: the list-valued ones above, and the immutable ones (str / bool / int / None)
+SCALAR_FIELDS = {'CreateClassStmt': {'kind'}, 'CreateUniqueStmt': {'kind', 'name'}, 'CreateInstanceStmt': {'kind'},
+                 'CreateAssociationStmt': {'rel_id', 'source_kind', 'target_kind', 'source_cardinality',
+                                           'target_cardinality', 'source_phrase', 'target_phrase'}}
+BASE_FIELDS = {'offset', 'lineno', 'filename'}
+INSPECTORS = {'isinstance', 'type', 'id'}
 MUTATORS = [('append_attribute', 'MetaClass.append_attribute'), ('insert_attribute', 'MetaClass.insert_attribute'),
             ('delete_attribute', 'MetaClass.delete_attribute'),
             ('define_unique_identifier', 'MetaModel.define_unique_identifier'), ('new', 'MetaModel.new'),
@@ -130,8 +139,17 @@ def escapes(src, q, expr, seen=None):
             continue                                  # *expr: unpacked into a new tuple
         if isinstance(p, (ast.For, ast.comprehension)) and p.iter is node:
             continue
-        if isinstance(p, (ast.Subscript, ast.Attribute)) and p.value is node:
-            continue                                  # expr[i], expr.method: elements are immutable str / tuple
+        if isinstance(p, ast.Subscript) and p.value is node:
+            if not isinstance(p.ctx, ast.Load):
+                raise ValueError('%s: `%s` writes into %s' % (q, ast.unparse(par.get(p, p))[:80], expr))
+            continue                                  # expr[i]: elements are immutable str / tuple
+        if isinstance(p, ast.Attribute) and p.value is node:
+            gp = par.get(p)
+            if p.attr in MUTATING and isinstance(gp, ast.Call) and gp.func is p:
+                raise ValueError('%s: `%s` mutates %s' % (q, ast.unparse(gp)[:80], expr))
+            if not isinstance(p.ctx, ast.Load):
+                raise ValueError('%s: `%s` writes an attribute of %s' % (q, ast.unparse(par.get(p, p))[:80], expr))
+            continue                                  # expr.method(..): a read
         if isinstance(p, (ast.Compare, ast.BoolOp, ast.UnaryOp)) or (isinstance(p, (ast.If, ast.IfExp, ast.While)) and p.test is node):
             continue
         if isinstance(p, ast.Call) and node in p.args:
@@ -322,13 +340,161 @@ def build_returns_fresh(src):
     return ok and returns >= 1 and len(fresh) >= 1
 
 
-def by_ref(src):
+def _declared_fields(repo_dir):
+    """statement class -> the attributes its __init__ assigns on self (must be exactly the fields listed here)"""
+    tree = ast.parse(open(os.path.join(repo_dir, 'xtuml', 'load.py'), encoding='utf-8').read())
+    out = {}
+    for node in tree.body:
+        if isinstance(node, ast.ClassDef) and node.name in SCALAR_FIELDS:
+            if [ast.unparse(b_) for b_ in node.bases] != ['Stmt']:
+                raise ValueError('%s: unexpected base classes' % node.name)
+            fields = set()
+            for sub in node.body:
+                if isinstance(sub, ast.FunctionDef):
+                    if sub.name != '__init__':
+                        raise ValueError('%s: unexpected method %s' % (node.name, sub.name))
+                    for st in ast.walk(sub):
+                        if isinstance(st, ast.Attribute) and isinstance(st.ctx, ast.Store):
+                            if ast.unparse(st.value) != 'self':
+                                raise ValueError('%s.__init__: writes %s' % (node.name, ast.unparse(st)))
+                            fields.add(st.attr)
+                elif not (isinstance(sub, ast.Expr) and isinstance(sub.value, ast.Constant)):
+                    raise ValueError('%s: unexpected class-level statement `%s`' % (node.name, ast.unparse(sub)[:60]))
+            out[node.name] = fields
+        elif isinstance(node, ast.ClassDef) and node.name == 'Stmt':
+            names = set()
+            for sub in node.body:
+                if isinstance(sub, ast.Assign) and all(isinstance(t, ast.Name) for t in sub.targets) and \
+                        isinstance(sub.value, ast.Constant) and sub.value.value is None:
+                    names.update(t.id for t in sub.targets)
+                elif not (isinstance(sub, ast.Expr) and isinstance(sub.value, ast.Constant)):
+                    raise ValueError('Stmt: unexpected class-level statement `%s`' % ast.unparse(sub)[:60])
+            if names != BASE_FIELDS:
+                raise ValueError('Stmt: fields %s, expected %s' % (sorted(names), sorted(BASE_FIELDS)))
+    for scls in SCALAR_FIELDS:
+        want = set(f for c, f in STATEMENT_FIELDS if c == scls) | SCALAR_FIELDS[scls]
+        if out.get(scls) != want:
+            raise ValueError('%s: fields %s, the analysis knows %s (a new field must be classified as list-valued or '
+                             'immutable)' % (scls, sorted(out.get(scls, [])), sorted(want)))
+    return out
+
+
+def _local_methods(src, fn, cls):
+    """local name -> qualified project functions, for `name = self.<method>` / `name = <Class>.<method>`"""
+    out = {}
+    for node in ast.walk(fn):
+        if isinstance(node, ast.Assign) and len(node.targets) == 1 and isinstance(node.targets[0], ast.Name) and \
+                isinstance(node.value, ast.Attribute) and isinstance(node.value.value, ast.Name):
+            recv = node.value.value.id
+            t = cls if recv == 'self' else (recv if recv in src.classes else None)
+            if t and '%s.%s' % (t, node.value.attr) in src.funcs:
+                out.setdefault(node.targets[0].id, []).append('%s.%s' % (t, node.value.attr))
+    return out
+
+
+def statement_scopes(src, q, var, scls, seen):
+    """the (function, variable) pairs through which a statement object of class `scls` is visible, starting from
+    variable `var` of function `q`; raises on any use of the object other than field access, isinstance() or being
+    passed whole to a project function"""
+    if (q, var) in seen:
+        return
+    seen.add((q, var))
+    fn, cls = src.get(q)
+    par = _parents(fn)
+    local = _local_methods(src, fn, cls)
+    known = set(f for c, f in STATEMENT_FIELDS if c == scls) | SCALAR_FIELDS[scls] | BASE_FIELDS
+    for node in ast.walk(fn):
+        if not (isinstance(node, ast.Name) and node.id == var):
+            continue
+        p = par.get(node)
+        if not isinstance(node.ctx, ast.Load):
+            if isinstance(p, ast.For) and p.target is node:
+                continue
+            raise ValueError('%s: the statement variable %s is rebound in `%s`' % (q, var, ast.unparse(p)[:80]))
+        if isinstance(p, ast.Attribute) and p.value is node:
+            if not isinstance(p.ctx, ast.Load):
+                raise ValueError('%s: `%s` writes a field of the statement' % (q, ast.unparse(par.get(p, p))[:80]))
+            if p.attr not in known:
+                raise ValueError('%s: unknown statement field %s.%s' % (q, var, p.attr))
+            continue
+        if isinstance(p, ast.Call) and node in p.args and not p.keywords:
+            f = p.func
+            if isinstance(f, ast.Name) and f.id in INSPECTORS:
+                continue
+            targets = local.get(f.id, []) if isinstance(f, ast.Name) and f.id in local else _callee(src, p, cls)
+            if not targets:
+                raise ValueError('%s: the statement object is passed whole to %s, which is not followed' % (q, ast.unparse(f)))
+            idx = p.args.index(node)
+            if any(isinstance(a_, ast.Starred) for a_ in p.args[:idx]):
+                raise ValueError('%s: star-argument before the statement in %s' % (q, ast.unparse(p)[:80]))
+            for t in targets:
+                tfn, tcls = src.get(t)
+                names, _ = _params(tfn)
+                bound = tcls is not None and not any(isinstance(d, ast.Name) and d.id == 'staticmethod'
+                                                     for d in tfn.decorator_list)
+                if bound:
+                    names = names[1:]
+                if idx >= len(names):
+                    raise ValueError('%s: cannot bind the statement in %s' % (q, ast.unparse(p)[:80]))
+                statement_scopes(src, t, names[idx], scls, seen)
+            continue
+        raise ValueError('%s: the statement object %s is used whole in `%s` (renamed, stored, returned, compared ...)'
+                         % (q, var, ast.unparse(p)[:80] if p is not None else var))
+
+
+def _statement_loops(src, phases):
+    """[(function, loop variable, statement class)] for the loops over self.statements of the populate phases; any
+    other use of self.statements in ModelLoader.populate / build_metamodel / the phases raises"""
+    out = []
+    for name in ['populate', 'build_metamodel'] + list(phases):
+        q = 'ModelLoader.%s' % name
+        fn, _ = src.get(q)
+        par = _parents(fn)
+        for node in ast.walk(fn):
+            if isinstance(node, ast.Attribute) and ast.unparse(node) == 'self.statements':
+                p = par.get(node)
+                if not (isinstance(p, ast.For) and p.iter is node and isinstance(p.target, ast.Name)):
+                    raise ValueError('%s: self.statements is used other than in `for <v> in self.statements:`' % q)
+                var = p.target.id
+                classes = set()
+                for sub in ast.walk(p):
+                    if isinstance(sub, ast.Call) and isinstance(sub.func, ast.Name) and sub.func.id == 'isinstance' \
+                            and len(sub.args) == 2 and ast.unparse(sub.args[0]) == var:
+                        classes.add(ast.unparse(sub.args[1]))
+                if len(classes) != 1 or list(classes)[0] not in SCALAR_FIELDS:
+                    raise ValueError('%s: the loop over self.statements does not select one statement class: %s'
+                                     % (q, sorted(classes)))
+                first = p.body[0]
+                sel = list(classes)[0]
+                ok = isinstance(first, ast.If) and ast.unparse(first.test) in (
+                    'isinstance(%s, %s)' % (var, sel), 'not isinstance(%s, %s)' % (var, sel))
+                if ok and ast.unparse(first.test).startswith('not'):
+                    ok = [ast.unparse(x) for x in first.body] == ['continue'] and not first.orelse
+                elif ok:
+                    ok = len(p.body) == 1 and not first.orelse
+                if not ok:
+                    raise ValueError('%s: the statements of the loop are not guarded by the isinstance test' % q)
+                out.append((q, var, sel))
+    return out
+
+
+def by_ref(src, phases):
+    scopes = {}
+    for q, var, scls in _statement_loops(src, phases):
+        seen = set()
+        statement_scopes(src, q, var, scls, seen)
+        scopes.setdefault(scls, set()).update(seen)
     rows = []
     for scls, field in STATEMENT_FIELDS:
-        expr = 'stmt.%s' % field
-        where = []
-        for fn_name in POPULATE_OF[scls]:
-            where.extend(escapes(src, 'ModelLoader.%s' % fn_name, expr))
+        where, uses = [], 0
+        for q, var in sorted(scopes.get(scls, ())):
+            expr = '%s.%s' % (var, field)
+            fn, _ = src.get(q)
+            uses += sum(1 for n in ast.walk(fn) if isinstance(n, ast.Attribute) and ast.unparse(n) == expr)
+            where.extend(escapes(src, q, expr))
+        if uses == 0:
+            raise ValueError('no recognised use of %s.%s in the populate phases: the analysis cannot say where the '
+                             'list goes' % (scls, field))
         rows.append((scls, field, sorted(set(where))))
     return rows
 
@@ -347,7 +513,8 @@ def generate(repo_dir):
     src = Source(repo_dir)
     phases = phase_order(src)
     fresh = build_returns_fresh(src)
-    refs = by_ref(src)
+    _declared_fields(repo_dir)
+    refs = by_ref(src, [p for p in phases if p != 'populate_connections'])
     muts = [(name, mutator_writes(src, entry)) for name, entry in MUTATORS]
     lines = [
         '/-',
